@@ -66,6 +66,18 @@ STRENGTHENED = {
     'C03_5': 'reported with exit code 2 at first: the stack handed send_message a data value of 256 and the simulated port raised from its own conversion; now violation clause illegal-frame',
     'C01_8': 'caught by C08 at first; since application calls can be parked at a source line also by C01',
     'C09_8': 'NOT CAUGHT: needs the receiving thread suspended between two statements of a handler while the job thread is awake; reception runs in scheduler context in this simulator and no property quantifies over that schedule (DESIGN 10, 12.9)',
+    # ---- round 5 (one agent per property again, 133 earlier titles to stay away from)
+    'C12_8': 'missed at first (a periodic callback that removes another timer due in the same pass and adds a new one in the same invocation: the list keeps its length); C12 callbacks can now perform several operations in one invocation, from one-shot operator timers and from periodic user callbacks',
+    'C05_8': 'missed at first (a connection-mode transfer carrying a PDU2 parameter group to one address): C05 had no multi-packet message addressed to an address the stack owns; a reference node now sends RTS/CTS transfers with a PDU1 and a PDU2 parameter group to the owned addresses',
+    'C13_7': 'caught by C11 (two CAs on one ECU, groups leave under the other CA\'s address), not by C13 itself: the author notes that the situation is outside C13\'s quantifier',
+    'C16_11': 'missed at first (stop_send of one Dm1 sender stops every other sender on the ECU): C16 now runs a second, never stopped DM1 sender on a second CA of the sending ECU in 40 % of the runs',
+    'C16_12': 'missed by C16 at first (caught by C12): stop_send is now also called from inside the supplier callback',
+    'C06_8': 'missed at first (the responder\'s time-out abort is sent with source and destination swapped): the abort clause counted abort frames regardless of their addressing; it now requires own address as source and the peer\'s as destination',
+    'C10_9': 'missed by C10 at first (caught by C02): histories now contain broadcasts of a PDU1 parameter group to the global address',
+    'C19_6': 'missed at first (a key left over from the previous transaction): C19 transactions can now be the second one on the objects, after an undisturbed first transaction (sampled and enumerated)',
+    'C19_7': 'missed at first (an intruding DM14 with command operation completed): the intruder\'s command is now drawn from read / write / operation completed / erase (operation completed also enumerated after every frame)',
+    'C01_10': 'pre-emptive: SimLock reports a thread that asks again for a non-reentrant lock it holds (a reply handled inside the call that holds it) as clause hang instead of parking it for ever',
+    'C12_9': 'pre-emptive: idle gaps that are not whole milliseconds',
     'C09_10': 'NOT CAUGHT: needs a responder that re-requests an earlier segment with a CTS, a freedom the reference peer does not use and that neither C03 nor C09 lists among the peer\'s choices (DESIGN 10, 12.9)',
 }
 rows = []
